@@ -77,6 +77,19 @@ void h_deregister_mod_src(void) {
     V_COVER("dereg-present-timer", r == 0 && vin_type == M_SRC_TYPE_TMR); V_COVER("dereg-absent", r == -ENOENT); V_COVER("dereg-no-token", r == -EAGAIN);
     V_CANARY();
 }
+#elif defined(V_PROCPS_UNIT)
+char *v_strerror(int e) { static char s[2]; (void)e; return s; }
+void h_process_ps(void) {
+    build_reg();
+    g_psrc = malloc(sizeof *g_psrc); __CPROVER_assume(g_psrc != NULL); g_psrc->type = M_SRC_TYPE_PS; g_psrc->mod = g_mod; g_psrc->fd_src.fd = 7; g_psrc->flags = M_SRC_INTERNAL | M_SRC_PRIO_HIGH;
+    g_pmsg = malloc(sizeof *g_pmsg); __CPROVER_assume(g_pmsg != NULL);
+    static ev_src_t subobj; g_pmsg->sub = (vin_present & 1) ? &subobj : NULL; g_pmsg->msg.topic = (vin_present & 1) ? "t" : NULL;
+    evt_priv_t *evt = malloc(sizeof *evt); __CPROVER_assume(evt != NULL); evt->src = g_psrc; evt->evt.ps_evt = NULL; evt->evt.type = M_SRC_TYPE_PS;
+    g.pipe_len = vin_setlen;
+    ev_src_t *r = process_ps(g_psrc, g_ctx, 0, evt);
+    V_COVER("ps-message-with-subscription", vin_setlen > 0 && r == &subobj); V_COVER("ps-direct-message", vin_setlen > 0 && r == NULL); V_COVER("ps-nothing-to-read", vin_setlen == 0);
+    V_CANARY();
+}
 #elif defined(V_CREATESRC_UNIT)
 static ev_src_t *v_proc(ev_src_t *this, m_ctx_t *c, int idx, evt_priv_t *evt) { (void)c; (void)idx; (void)evt; return this; }
 void h_create_src(void) {
